@@ -74,10 +74,11 @@ type kShape struct {
 }
 
 type kGraph struct {
-	stop  chan struct{}
-	A, C  krt.StaticCollection[kObj]
-	idxNs krt.Index[string, kObj]
-	built map[string]krt.Collection[kOut]
+	stop   chan struct{}
+	A, C   krt.StaticCollection[kObj]
+	idxNs  krt.Index[string, kObj]
+	idxApp krt.Index[string, kObj] // index on a MUTABLE attribute: an update can move an object to another index key
+	built  map[string]krt.Collection[kOut]
 }
 
 func (g *kGraph) opts(name string) []krt.CollectionOption {
@@ -233,6 +234,58 @@ func init() {
 				return out
 			},
 		},
+		{ // fetch only through an index on a mutable attribute: the fetched object moves into and out of the key
+			name: "byAppIndex",
+			build: func(g *kGraph) krt.Collection[kOut] {
+				return krt.NewCollection(g.A, func(ctx krt.HandlerContext, a kObj) *kOut {
+					cs := krt.Fetch(ctx, g.C, krt.FilterIndex(g.idxApp, a.Labels["app"]))
+					return &kOut{Key: "byAppIndex/" + a.ResourceName(), Data: describe(cs)}
+				}, g.opts("byAppIndex")...)
+			},
+			expect: func(g *kGraph, as, cs []kObj) map[string]string {
+				out := map[string]string{}
+				for _, a := range as {
+					var m []kObj
+					for _, c := range cs {
+						if c.Labels["app"] == a.Labels["app"] {
+							m = append(m, c)
+						}
+					}
+					out["byAppIndex/"+a.ResourceName()] = describe(m)
+				}
+				return out
+			},
+		},
+		{ // checked join of two collections with OVERLAPPING keys: the first collection wins, the second is the fallback
+			name: "ojoin",
+			build: func(g *kGraph) krt.Collection[kOut] {
+				p := krt.NewCollection(g.A, func(ctx krt.HandlerContext, a kObj) *kOut {
+					if a.Val%2 == 1 {
+						return nil
+					}
+					return &kOut{Key: "o/" + a.ResourceName(), Data: fmt.Sprintf("P%d", a.Val)}
+				}, g.opts("ojoinP")...)
+				q := krt.NewCollection(g.A, func(ctx krt.HandlerContext, a kObj) *kOut {
+					if a.Val%3 == 0 {
+						return nil
+					}
+					return &kOut{Key: "o/" + a.ResourceName(), Data: fmt.Sprintf("Q%d", a.Val)}
+				}, g.opts("ojoinQ")...)
+				return krt.JoinCollection([]krt.Collection[kOut]{p, q}, g.opts("ojoin")...)
+			},
+			expect: func(g *kGraph, as, cs []kObj) map[string]string {
+				out := map[string]string{}
+				for _, a := range as {
+					switch {
+					case a.Val%2 == 0:
+						out["o/"+a.ResourceName()] = fmt.Sprintf("P%d", a.Val)
+					case a.Val%3 != 0:
+						out["o/"+a.ResourceName()] = fmt.Sprintf("Q%d", a.Val)
+					}
+				}
+				return out
+			},
+		},
 		{ // join of two collections with disjoint keys
 			name: "join",
 			build: func(g *kGraph) krt.Collection[kOut] {
@@ -328,6 +381,7 @@ func runC16(t *testing.T, r *engine.Run) {
 	for _, s := range kShapes {
 		names[s.name] = true // fixed before any collection goroutine starts (the filter reads it concurrently)
 	}
+	names["ojoinP"], names["ojoinQ"] = true, true
 	sched.Filter = func(point, key string) bool { return controlled && point == "queue.task" && names[key] }
 	simhook.SetHook(sched.Yield)
 
@@ -375,6 +429,7 @@ func runC16(t *testing.T, r *engine.Run) {
 	g.A = krt.NewStaticCollection[kObj](nil, as, krt.WithName("A"), krt.WithStop(g.stop))
 	g.C = krt.NewStaticCollection[kObj](nil, cs, krt.WithName("C"), krt.WithStop(g.stop))
 	g.idxNs = krt.NewIndex[string, kObj](g.C, "ns", func(o kObj) []string { return []string{o.Ns} })
+	g.idxApp = krt.NewIndex[string, kObj](g.C, "app", func(o kObj) []string { return []string{o.Labels["app"]} })
 
 	// choose shapes (dependencies first)
 	want := map[string]bool{}
@@ -472,11 +527,12 @@ func runC16(t *testing.T, r *engine.Run) {
 				errs, st := append([]string(nil), sub.errs...), mapStr(sub.state)
 				sub.mu.Unlock()
 				if len(errs) > 0 {
-					r.Fail("c16.event_stream_malformed", s.name, "%s: subscriber %s: %s", where, sub.name, strings.Join(errs, "; "))
+					kind := strings.Join(strings.Fields(errs[0])[:2], "_")
+					r.Fail("c16.event_stream_malformed", sub.name+":"+kind, "%s: subscriber %s: %s", where, sub.name, strings.Join(errs, "; "))
 					return
 				}
 				if st != mapStr(exp) {
-					r.Fail("c16.event_replay_differs", s.name, "%s: replaying the events of subscriber %s gives {%s}, contents are {%s}", where, sub.name, st, mapStr(exp))
+					r.Fail("c16.event_replay_differs", sub.name, "%s: replaying the events of subscriber %s gives {%s}, contents are {%s}", where, sub.name, st, mapStr(exp))
 					return
 				}
 			}
